@@ -28,15 +28,7 @@ def run_impl(case):
     given = {"list": lambda: list(init), "tuple": lambda: tuple(init), "iter": lambda: iter(init),
              "gen": lambda: (v for v in init), "map": lambda: map(int, init), "bytes": lambda: bytes(init),
              "bytearray": lambda: bytearray(init), "range": lambda: range(len(init))}[how]()
-    cls_ = WishboneSRAM
-    if writable and lib.rng_for(case["seed"], case["idx"], 1545).random() < 0.1:
-        # a user's boot-ROM class: the public `writable` property overridden to False on a subclass — what the object reports
-        # is what the hardware does
-        class BootROM(WishboneSRAM):
-            writable = False
-        cls_ = BootROM
-    dut = cls_(size=size, data_width=dw, granularity=gran, writable=writable, init=given)
-    writable = bool(dut.writable)
+    dut = WishboneSRAM(size=size, data_width=dw, granularity=gran, writable=writable, init=given)
     if rnd.random() < 0.3:
         # the init image may also be (re)assigned through the `init` property after construction
         init = [lib.bits(rnd, dw) for _ in range(depth)]
